@@ -41,7 +41,7 @@ def run(tier, seed):
         'both sides see the compiled zonedbx table: the C++ table is decoded through the brokers into the tools\' data model (no source text involved)',
         'C++ side = exact change-point table from a walk over every minute of 2000..2049 with bisection to the second; Python side = ZoneSpecifier.transitions of every year under all 8 option combinations (viewing_months 13/14 x candidate finder x selector), compared row by row (offset, DST offset, abbreviation)',
         'local date-times: every minute within %d min of every transition; Python total offset of the selected transition vs (local-as-UTC - C++ result epoch); %s' % (200 if thorough else 120, 'all 8 option sets' if thorough else 'default and most different option set'),
-        'freshly compiled sources: the C03 era-chain products (quick: years 2004..2014; thorough: + year-edge product + S3 one-deviation family, 2000..2049) compiled once by the real pipeline into generated C++ tables and in-memory Python tables, compared the same way; both are also compared with zic in C03',
+        'freshly compiled sources: the C03 era-chain products (quick: years 2004..2014, plus the year-edge zones whose AT is in UTC; thorough: + whole year-edge product + S3 one-deviation family, 2000..2049) compiled once by the real pipeline into generated C++ tables and in-memory Python tables, compared the same way; both are also compared with zic in C03',
     ]
     return rep.finish(exhaustive=True, extra={'evaluations': n_q + n_loc + n_tab, 'distinct_nontrivial': n_bp,
         'samples': [{'zone': 'America/Los_Angeles', 'cxx_rows': cxx.get('America/Los_Angeles', [])[:3]}],
@@ -58,6 +58,11 @@ def fresh(rep, tier, seed):
     # violation keys name the input class (family, STDOFF sequence, RULES kinds / UNTIL form), not the running zone number
     label = {c[4]: (c[0], '_'.join(c[2].split(' until ')[0].split(' ')[:-1]), c[1]) for c in chains}
     src = {c[4]: rules + '\n' + c[3] for c in chains}   # self-contained source per zone
+    if not thorough:
+        # quick: the year-edge zones whose AT is given in UTC (those move across the year boundary with the zone's offset)
+        edge = [c for c in mutants.year_boundary() if c[2].split(' ')[2].endswith('u')]
+        blocks += [c[3] for c in edge]; names += [c[4] for c in edge]
+        label.update({c[4]: (c[0], c[1]) for c in edge}); src.update({c[4]: c[3] for c in edge})
     if thorough:
         edge = mutants.year_boundary()
         blocks += [c[3] for c in edge]; names += [c[4] for c in edge]
